@@ -321,4 +321,6 @@ def check(ctx, R):
     R.run("C17.b", rule_b, ctx)
     R.run("C17.c", rule_c, ctx)
     R.run("C17.d", rule_d, ctx)
+    from . import preds
+    R.run("C17.p", lambda R, c: preds.rule(R, c, "C17.p", ["is_visible"]), ctx)
     return {}
